@@ -643,6 +643,127 @@ fn instant_child_body(cause: Cause, manual_link: bool, local: bool) -> vsched::B
     })
 }
 
+#[derive(Clone, Copy, Debug, PartialEq, Eq)]
+enum Alias {
+    /// every process number is distinct (control)
+    Distinct,
+    /// the stand-in has the process number of the exiting root
+    Root,
+    /// ... of its local sibling
+    Sibling,
+    /// ... of a local actor one level further down, under the sibling
+    Nephew,
+    /// two stand-ins of two different nodes with the same process number
+    OtherNode,
+}
+
+#[cfg(not(feature = "alt"))]
+fn mixed_tree_body(_alias: Alias, _kill: bool, _standin_first: bool) -> vsched::Body {
+    wrong_build()
+}
+
+/// Cluster build: a subtree that mixes local actors and stand-ins with remote ids (what a `NodeSession` supervises:
+/// its own connection actors next to one stand-in per actor of the peer). Process numbers count from 0 on every
+/// node, so a stand-in `7.p` regularly sits next to a local `0.p`: they are different actors and both go down with
+/// the root, as does everything linked beneath either.
+///
+///   R --+-- L (local) --- L2 (local)
+///       +-- S (stand-in, remote id) --- K (local "relay")
+///       (+-- S2, a stand-in of another node, for Alias::OtherNode)
+#[cfg(feature = "alt")]
+fn mixed_tree_body(alias: Alias, kill: bool, standin_first: bool) -> vsched::Body {
+    Arc::new(move || {
+        Box::pin(async move {
+            let mut bad = Vec::new();
+            let mut cells: Vec<(String, ActorCell)> = Vec::new();
+            let mut handles = Vec::new();
+            let (r, rh) = Actor::spawn(None, Dummy, ()).await.expect("R");
+            cells.push(("R".into(), r.get_cell()));
+            let local = |name: &str, sup: ActorCell| {
+                let name = name.to_string();
+                async move {
+                    let (a, h) = Actor::spawn_linked(None, Dummy, (), sup).await.expect("local");
+                    (name, a, h)
+                }
+            };
+            let standin = |name: &str, node_id: u64, pid: u64, sup: ActorCell| {
+                let name = name.to_string();
+                async move {
+                    let (a, h) = ractor::ActorRuntime::<Dummy>::spawn_linked_remote(None, Dummy, ractor::ActorId::Remote { node_id, pid }, (), sup).await.expect("stand-in");
+                    (name, a, h)
+                }
+            };
+            // (the order in which the children are linked decides the order of the walk)
+            let mut s_made = None;
+            if standin_first && matches!(alias, Alias::Root | Alias::Distinct | Alias::OtherNode) {
+                let pid = if alias == Alias::Root { r.get_id().pid() } else { 4000 };
+                s_made = Some(standin("S", 7, pid, r.get_cell()).await);
+            }
+            let (n, l, h) = local("L", r.get_cell()).await;
+            cells.push((n, l.get_cell()));
+            handles.push(h);
+            let (n, l2, h) = local("L2", l.get_cell()).await;
+            cells.push((n, l2.get_cell()));
+            handles.push(h);
+            let (n, s, h) = match s_made {
+                Some(x) => x,
+                None => {
+                    let pid = match alias {
+                        Alias::Distinct | Alias::OtherNode => 4000,
+                        Alias::Root => r.get_id().pid(),
+                        Alias::Sibling => l.get_id().pid(),
+                        Alias::Nephew => l2.get_id().pid(),
+                    };
+                    standin("S", 7, pid, r.get_cell()).await
+                }
+            };
+            cells.push((n, s.get_cell()));
+            handles.push(h);
+            let (n, k, h) = local("K", s.get_cell()).await;
+            cells.push((n, k.get_cell()));
+            handles.push(h);
+            if alias == Alias::OtherNode {
+                let (n, s2, h) = standin("S2", 8, s.get_id().pid(), r.get_cell()).await;
+                cells.push((n, s2.get_cell()));
+                handles.push(h);
+                let (n, k2, h) = local("K2", s2.get_cell()).await;
+                cells.push((n, k2.get_cell()));
+                handles.push(h);
+            }
+            bad.extend(tree_invariants(&cells));
+            vsched::explore_schedules(true);
+            if kill {
+                r.kill();
+            } else {
+                r.stop(None);
+            }
+            let _ = rh.await;
+            vsched::quiesce_time();
+            vsched::explore_schedules(false);
+            let mut alive = Vec::new();
+            for (n, c) in &cells {
+                if c.get_status() != ActorStatus::Stopped {
+                    alive.push(format!("{n}({})={:?}", c.get_id(), c.get_status()));
+                }
+            }
+            if !alive.is_empty() {
+                bad.push(format!("the root exited but these actors linked beneath it keep running: {alive:?}"));
+            }
+            bad.extend(tree_invariants(&cells));
+            // (nothing may leak into the next execution)
+            for (_, c) in &cells {
+                if c.get_status() != ActorStatus::Stopped {
+                    c.kill();
+                }
+            }
+            for h in handles {
+                let _ = h.await;
+            }
+            Outcome { key: format!("{alias:?} kill={kill} alive={}", alive.len()), violations: bad }
+        })
+    })
+}
+
 const S_KINDS: &[PointKind] = &[PointKind::Atomic, PointKind::Lock, PointKind::Channel, PointKind::Other];
 
 pub fn plan(tier: &str) -> Plan {
@@ -757,6 +878,23 @@ pub fn plan(tier: &str) -> Plan {
                 Some(lb),
                 instant_child_body(cause, manual, local),
             )));
+        }
+    }
+    // cluster build: local actors and remote stand-ins (whose process numbers overlap) in one subtree
+    for alias in [Alias::Distinct, Alias::Root, Alias::Sibling, Alias::Nephew, Alias::OtherNode] {
+        for kill in [false, true] {
+            for standin_first in [false, true] {
+                if standin_first && matches!(alias, Alias::Sibling | Alias::Nephew) {
+                    continue;
+                }
+                units.push(alt_unit(
+                    format!("alt/mixed-tree/{alias:?}/{}/{}", if kill { "kill" } else { "stop" }, if standin_first { "stand-in-linked-first" } else { "stand-in-linked-last" }),
+                    cfg.clone(),
+                    Some(if thorough { 2 } else { 1 }),
+                    mixed_tree_body(alias, kill, standin_first),
+                    1,
+                ));
+            }
         }
     }
     // exits before the actor ever ran, with a subtree linked from pre_start
